@@ -67,7 +67,7 @@ instance : CoeFun Heap (fun _ => Id → NodeRec) := ⟨Heap.get⟩
 
 def Heap.empty : Heap := ⟨fun _ => {}⟩
 
-def Heap.set (h : Heap) (i : Id) (r : NodeRec) : Heap := ⟨fun j => if j = i then r else h j⟩
+@[noinline] def Heap.set (h : Heap) (i : Id) (r : NodeRec) : Heap := ⟨fun j => if j = i then r else h j⟩
 
 @[simp] theorem Heap.set_same (h : Heap) (i r) : (h.set i r) i = r := by simp [Heap.set]
 theorem Heap.set_other (h : Heap) (i j r) (hne : j ≠ i) : (h.set i r) j = h j := by simp [Heap.set, hne]
